@@ -111,7 +111,18 @@ def probes():
     missing = [k for k, v in res.items() if not v]
     if missing:
         raise Machinery("OptProto.tla: situations no longer reachable in the design model (vacuous invariants): %s" % missing)
-    return sorted(res)
+    # liveness of the protocol itself: with weakly fair micro-steps every public call returns (FairSpec => Returns)
+    d = tempfile.mkdtemp(prefix="optproto-")
+    cfg = os.path.join(d, "live.cfg")
+    with open(cfg, "w") as fh:
+        fh.write("SPECIFICATION FairSpec\nCONSTANTS\n  MaxCalls = 1\n  MaxFaults = 2\nPROPERTY Returns\nCHECK_DEADLOCK FALSE\n")
+    try:
+        r = tlc.run("MC_OptProto.tla", cfg, workers=4, timeout=3000, heap="4g")
+    finally:
+        shutil.rmtree(d, ignore_errors=True)
+    if not r.ok:
+        raise Machinery("OptProto.tla: a public call of the protocol model need not return (FairSpec => Returns fails):\n" + (r.violation or r.out)[-2000:])
+    return sorted(res) + ["liveness: every call returns (%d states)" % r.distinct]
 
 
 def run(prop, level, rule):
